@@ -365,6 +365,11 @@ func (a *genericAuthenticator) calculateCacheKey(ctx heimdall.Context, reference
 	digest.Write(a.e.Hash())
 	digest.Write(stringx.ToBytes(reference))
 
+	// an entry is valid for the time configured for the authenticator which stored it, and
+	// must not be reused by an authenticator configured with another cache ttl
+	digest.Write([]byte{0})
+	digest.Write(stringx.ToBytes(a.ttl.String()))
+
 	// the payload sent to the endpoint is rendered from the template and the authentication data
 	if a.payload != nil {
 		digest.Write([]byte{0})
